@@ -80,6 +80,9 @@ type Env struct {
 	pendingViol   *Violation
 
 	inCommit bool
+
+	// WriteTxClosed is true once a write transaction has ended since the last Open (Stats are refreshed then).
+	WriteTxClosed bool
 }
 
 var (
@@ -265,6 +268,7 @@ func (e *Env) Open(o OpenOpts) error {
 	}
 	e.DB = db
 	e.Opts = o
+	e.WriteTxClosed = false
 	e.PageSize = db.Info().PageSize
 	// learn the current txid; content is unchanged by Open (a freelist flush bumps the txid only)
 	_ = db.View(func(tx *bolt.Tx) error {
@@ -476,6 +480,7 @@ func (e *Env) apply(op Op) *Violation {
 		e.inCommit = true
 		err := rw.tx.Commit()
 		e.inCommit = false
+		e.WriteTxClosed = true
 		e.LastCommitErr = err
 		if err != nil {
 			e.Mark("commit-err", rw.id)
@@ -511,6 +516,7 @@ func (e *Env) apply(op Op) *Violation {
 		if err := rw.tx.Rollback(); err != nil {
 			return Violf("rollback: %v", err)
 		}
+		e.WriteTxClosed = true
 		e.Label("rollback")
 		if !e.SkipDumpAfter {
 			if v := e.CheckCommitted("after rollback"); v != nil {
@@ -529,6 +535,7 @@ func (e *Env) apply(op Op) *Violation {
 		if err := tx.Rollback(); err != nil {
 			return Violf("probe rollback: %v", err)
 		}
+		e.WriteTxClosed = true
 		return nil
 	case OpBeginRO:
 		if e.DB == nil || e.RO[op.Tx] != nil {
